@@ -51,7 +51,7 @@ def check_value_line(ctx, table, c, i, m, n, st, mask_modes=False):
     if what:
         sig = "degenerate-upper-end" if known else "value-mismatch"
         ctx.report(sig, {"table": table, "x": xs, "x_bits": w[3:3 + nd], "centers": cs, "precision": prec, "impl_bits": i, "impl": v,
-                         "spec": "%s" % spec, "case_line": c[:2000], "replay_cmd": "VERIF_SEED=%d python3 bin/check.py %s --tier %s" % (ctx.seed, ctx.prop, ctx.tier)}, "C01 oracle: " + what)
+                         "spec": "%s" % spec, "case_line": c, "table_line": st.get("_table_line"), "replay_cmd": "VERIF_SEED=%d python3 bin/check.py %s --tier %s" % (ctx.seed, ctx.prop, ctx.tier)}, "C01 oracle: " + what)
     else:
         st["distinct"].add(c)
     if known: st["known_cases"] += 1
@@ -77,7 +77,7 @@ def run_profile(ctx, profile, n_t, n_p, maxcoef, modes=("shipped",), line_checke
         table = None
         for n, tw, c, i, m in E.triples(cases, impl, model):
             k = c[:1]
-            if k == "T": table = E.parse_table(tw.split()); continue
+            if k == "T": table = E.parse_table(tw.split()); st["_table_line"] = tw; continue
             if k == "X":
                 ctx.violation({"table": table, "case": c, "impl": i, "line": n}, "entry points disagree: %s %s" % (c, i)); continue
             if k == "S":
@@ -113,6 +113,14 @@ def run(ctx):
     ctx.assumptions += ["floating-point rounding: envelope K*u*S with K=%d*(N_terms+4*ndim*(maxorder+1)) plus an absolute underflow term; assumed, not proved" % K_BASE,
                         "compiler: no FMA contraction / x87 (checked by the bit-exact tie)"]
 
-def replay(ctx, path):
-    print(open(path).read()[:4000])
-    run(ctx)
+def replay(ctx, path, line_checker=check_value_line):
+    st = {"values": 0, "bit_mismatch": 0, "worst_ratio": 0.0, "distinct": set(), "known_cases": 0, "lookups": 0}
+    def handler(table, tw, c, i, m):
+        st["_table_line"] = tw
+        if c[:1] in "VD": line_checker(ctx, table, c, i, m, 0, st)
+        elif c[:1] == "S":
+            bad = E.lookup_oracle(table, [E.dbl(z) for z in c.split()[1:]], i)
+            if bad: ctx.report("lookup:" + bad, {"table": table, "impl": i, "table_line": tw, "case_line": c}, "lookup oracle: " + bad)
+        elif i.strip() != m.split()[0] if m.split() else True:
+            ctx.tie_ok = False; ctx.broken.append({"kind": "correspondence bits", "case_line": c, "impl": i, "model": m})
+    if not E.replay_case(ctx, path, handler): run(ctx)
